@@ -31,13 +31,18 @@ SHARD = 24
 RULE = ("one scenario = 1-5 stations (continuous or finite-rate EVSEs, shuffled names, mixed voltages / phase angles), "
         "0-3 constraints with mixed-sign coefficients, 1-9 non-overlapping sessions (back-to-back stays, arrival ties across "
         "stations), scheduler in {uncontrolled, scripted multi-period, sorted FCFS/EDF/LLF/LRPT with distinct keys}; "
-        "9 runs per scenario (deep-copied clone run beside the live original, stored-and-reloaded before the run, interrupted-and-resumed, original, stations permuted, constraints permuted, sessions permuted, shifted by k, other "
+        "40% of the sorted scenarios use estimate_max_rate with a SimpleRampdown estimator and chargers below the pilot (no arrival in "
+        "period 0 there: open known finding rampdown-period0-shift); 9 runs per scenario (deep-copied clone run beside the live original, stored-and-reloaded before the run, interrupted-and-resumed, original, stations permuted, constraints permuted, sessions permuted, shifted by k, other "
         "PYTHONHASHSEED); every 5th scenario is a single-phase site (equal phase angles) with a feeder row of ones over all "
         "stations and tighter 0/1 pod rows that bind, every 7th a three-phase site with binding constraints; stream 2: in-process sequences A, <unrelated / re-wired sites with the same ids>, A on three-phase "
         "sites with binding constraints and sorted schedulers - the second run of A must equal the first exactly; "
         "each run is one correspondence case; distinct = distinct (scenario, variant); cases in which a "
         "feasibility or fully-charged decision is within 1e-6 / 1e-9 of its threshold are skipped as float-ambiguous")
-ASSUMPTIONS = ["exact rational arithmetic in the model; values compared to 1e-9 relative",
+ASSUMPTIONS = ["open known finding rampdown-period0-shift (replayed on the real code on every run): with a SimpleRampdown estimator a "
+               "session arriving in period 0 is ramped down one period later than the same session shifted by k >= 1; the "
+               "generator therefore lets nobody arrive in period 0 in its `rampdown` scenarios - exactly that input class and "
+               "nothing else; every other difference between a shifted and an unshifted run is reported",
+               "exact rational arithmetic in the model; values compared to 1e-9 relative",
                "sessions at one station do not overlap (otherwise plugin raises StationOccupiedError) and arrival < departure",
                "in the correspondence the sorted schedulers' emitted schedules are recorded and replayed as a scripted oracle "
                "(their equivariance is the theorem C10_sorted_equivariant about Model/Sorted.v, tied to the code by C07/C08); "
@@ -127,6 +132,20 @@ def add_options(rng, sc):
              mutate_args=rng.random() < 0.4, np_rows=rng.random() < 0.3, np_times=rng.random() < 0.3,
              est_dep=rng.random() < 0.3, resume_kind=rng.choice(["Exception", "BaseException"]),
              resume_fresh=rng.random() < 0.3)
+    # a sorting algorithm that LEARNS per-session pilot upper bounds (SimpleRampdown): state kept by the estimator must not
+    # leak from one simulation into the next one, which uses the same session ids (all variants / repeated runs do)
+    o["rampdown"] = sc["kind"] == "sorted" and rng.random() < 0.4
+    if o["rampdown"]:
+        o["resume_fresh"] = False          # a fresh scheduler mid-run legitimately forgets what was learned
+        for j, x in enumerate(sc["sessions"]):
+            if j % 2 == 0:
+                x["maxp"] = 3.25           # on-board charger well below the pilot: the estimator lowers its bound
+            # nobody arrives in period 0: on the unchanged tree Interface.last_applied_pilot_signals returns {} in period 1
+            # (`if i > 0` with i = iteration - 1), so a session arriving at 0 is ramped down one period later than the same
+            # session arriving at k >= 1 - OPEN KNOWN FINDING rampdown-period0-shift (replay_known); this exclusion is exactly
+            # that input class
+            x["arrival"] += 1
+            x["departure"] += 1
     sc["opts"] = o
     if rng.random() < 0.2 and len(sc["stations"]) <= len(LEX_NAMES):
         # station names whose lexicographic order differs from the registration order, numeric-looking, mixed case, empty
@@ -184,6 +203,8 @@ def variant_input(sc, variant):
         # the listing of the Plugin events: a random shuffle, the reversed list, or a nearly chronological listing with
         # one late arrival moved to the front part / one early arrival moved to the end (heap invariants of add_events)
         mode = r.choice(["shuffle", "reversed", "late-early", "late-early", "early-late"])
+        if sc.get("family") == "twins":
+            mode = "reversed"              # the two sessions with equal arrival and departure must swap places
         chrono = sorted(se, key=lambda x: (x["arrival"], x["k"]))
         if mode == "late-early" and len(se) >= 4:
             j = r.randrange(2, len(chrono))
@@ -274,12 +295,17 @@ def run_variant(sc, variant, nested=None, alg_pool=None):
             return UncontrolledCharging()
         if sc["kind"] == "sorted":
             key = "sorted/" + sc["sort"]
-            if alg_pool is not None and key in alg_pool:
+            if alg_pool is not None and key in alg_pool and not o.get("rampdown"):
                 al = alg_pool[key]                # the same algorithm object serves several simulations
             else:
-                al = SortedSchedulingAlgo({"fcfs": first_come_first_served, "edf": earliest_deadline_first,
-                                           "llf": least_laxity_first, "lrpt": largest_remaining_processing_time}[sc["sort"]])
-                if alg_pool is not None:
+                fn = {"fcfs": first_come_first_served, "edf": earliest_deadline_first,
+                      "llf": least_laxity_first, "lrpt": largest_remaining_processing_time}[sc["sort"]]
+                if o.get("rampdown"):
+                    from acnportal.algorithms import SimpleRampdown
+                    al = SortedSchedulingAlgo(fn, estimate_max_rate=True, max_rate_estimator=SimpleRampdown())
+                else:
+                    al = SortedSchedulingAlgo(fn)
+                if alg_pool is not None and not o.get("rampdown"):
                     alg_pool[key] = al
             al.max_recompute = sc["max_recompute"]
             return al
@@ -550,7 +576,7 @@ def gen_cases(rng, n, tier):
     # every 5th scenario: single-phase site, feeder row of ones + binding pod rows; every 7th: three-phase site with binding
     # constraints; the rest: the general generator
     scs = [rand_singlephase(rng, i) if i % 5 == 2 else rand_threephase(rng, i) if i % 7 == 3 else
-           rand_busy(rng, i) if i % 6 == 4 else rand_scenario(rng, i) for i in range(n_sc)]
+           rand_busy(rng, i) if i % 6 == 4 else rand_twins(rng, i) if i % 8 == 1 else rand_scenario(rng, i) for i in range(n_sc)]
     scs = corpus_scenarios() + scs
     per = [[run_variant(sc, v) for v in VARIANTS] for sc in scs]
     for outs, h in zip(per, other_hashseed(scs)):
@@ -649,6 +675,29 @@ def rand_busy(rng, idx):
               sort=rng.choice(["fcfs", "edf"]), max_recompute=1 if kind != "scr" else rng.choice([None, 1, 2, 3]),
               script_seed=rng.randint(0, 10 ** 6), script_len=rng.randint(1, 3), shift=rng.randint(1, 4),
               perm_seed=rng.randint(0, 10 ** 6))
+    return add_options(rng, sc)
+
+
+def rand_twins(rng, idx):
+    """scripted multi-period scheduler that is NOT re-run every period (max_recompute None / 3 / 4); pairs of sessions that
+    arrive in the same period and leave in the same period on different stations, one of them satisfied long before it
+    leaves, plus sessions that stay on: the order in which the queue hands out two Unplug (or two Plugin) events of one
+    period follows the listing order and must not matter"""
+    n = rng.randint(3, 5)
+    names = ["TW-%03d" % i for i in rng.sample(range(100, 160), n)]
+    stations = [dict(id=nm, kind=["C", 0, 32], voltage=208, phase=0) for nm in names]
+    constraints = [dict(name="con-0", coefs={m: 1 for m in names}, limit=rng.choice([64, 100, 200]))] if rng.random() < 0.5 else []
+    a, d = rng.randint(0, 2), rng.randint(5, 8)
+    sessions = [dict(k=0, id="sess-00", station=names[0], arrival=a, departure=d, energy=0.5, cap=60.0, init=0.0, maxp=7.5),
+                dict(k=1, id="sess-01", station=names[1], arrival=a, departure=d, energy=20.0, cap=60.0, init=0.0, maxp=7.5)]
+    for j, nm in enumerate(names[2:]):
+        sessions.append(dict(k=2 + j, id="sess-%02d" % (2 + j), station=nm, arrival=rng.randint(0, 3), departure=d + rng.randint(3, 6),
+                             energy=20.0, cap=60.0, init=0.0, maxp=7.5))
+    if rng.random() < 0.5:
+        sessions[0], sessions[1] = sessions[1], sessions[0]
+    sc = dict(idx=idx, family="twins", stations=stations, constraints=constraints, sessions=sessions, kind="scr", sort="fcfs",
+              max_recompute=rng.choice([None, None, 3, 4]), script_seed=rng.randint(0, 10 ** 6), script_len=rng.randint(2, 3),
+              shift=rng.randint(1, 4), perm_seed=rng.randint(0, 10 ** 6))
     return add_options(rng, sc)
 
 
@@ -839,6 +888,43 @@ def monitor(case):
     return None
 
 
+KNOWN_RAMPDOWN = "rampdown-period0-shift"
+
+
+def replay_known(entry):
+    """open finding rampdown-period0-shift: the witness (one EVSE, one EV arriving in period 0 whose on-board charger takes
+    far less than the pilot, FCFS with a SimpleRampdown estimator) is run unshifted and shifted by k on the real code; returns
+    what fails while the shifted pilots are not the unshifted ones delayed by k periods, None once it no longer reproduces"""
+    if entry.get("sig") != KNOWN_RAMPDOWN:
+        return "not re-checked"
+    from datetime import datetime
+    from acnportal.acnsim import Simulator, EventQueue, PluginEvent, ChargingNetwork
+    from acnportal.acnsim.models import EV, EVSE, Battery
+    from acnportal.algorithms import SortedSchedulingAlgo, first_come_first_served, SimpleRampdown
+    w = entry["witness"]
+
+    def run(k):
+        net = ChargingNetwork()
+        net.register_evse(EVSE(w["evse"]["id"], max_rate=w["evse"]["max_rate"]), w["evse"]["voltage"], w["evse"]["phase"])
+        e = w["ev"]
+        ev = EV(e["arrival"] + k, e["departure"] + k, e["energy"], w["evse"]["id"], "s0",
+                Battery(e["capacity"], e["init"], e["max_power"]))
+        alg = SortedSchedulingAlgo(first_come_first_served, estimate_max_rate=True, max_rate_estimator=SimpleRampdown())
+        sim = Simulator(net, alg, EventQueue([PluginEvent(ev.arrival, ev)]), datetime(2021, 1, 1), period=w["period"], verbose=False)
+        sim.run()
+        return [float(x) for x in sim.pilot_signals[0, :sim.iteration]]
+    with warnings.catch_warnings():
+        warnings.simplefilter("ignore")
+        base = run(0)
+        for k in w.get("shifts", [1]):
+            got = run(k)
+            want = [0.0] * k + base
+            if len(got) != len(want) or any(not close(a, b) for a, b in zip(got, want)):
+                return "shift by %d: pilots %s, the unshifted run delayed by %d periods is %s" % (
+                    k, [round(x, 3) for x in got[:k + 4]], k, [round(x, 3) for x in want[:k + 4]])
+    return None
+
+
 def search(rng, budget_s, broken):
     t0 = time.time()
     i = 0
@@ -849,7 +935,8 @@ def search(rng, budget_s, broken):
                 if r:
                     return dict(case=c["input"], impl=None, why=r)
         sc = rand_singlephase(rng, 10 ** 6 + i) if i % 4 == 0 else rand_threephase(rng, 10 ** 6 + i) if i % 4 == 2 \
-            else rand_busy(rng, 10 ** 6 + i) if i % 4 == 3 else rand_scenario(rng, 10 ** 6 + i)
+            else rand_busy(rng, 10 ** 6 + i) if i % 4 == 3 else rand_twins(rng, 10 ** 6 + i) if i % 8 == 1 \
+            else rand_scenario(rng, 10 ** 6 + i)
         i += 1
         outs = [run_variant(sc, v) for v in VARIANTS]
         for c in scenario_cases(sc, outs + [dict(outs[0], variant="hash")]):
